@@ -20,8 +20,10 @@ from sfv.translate import combguards, tagguards
 DRIVER = "Drivers/C02.lean"
 COMPS = [0, 1, 2, 9, 10, 11]
 SLOW_S = 900  # generous wall-clock bound per case (shared, loaded machine)
+STEP_S = 300  # bound of one step-level case (normally ~50 ms)
 KEY_DESC = "dot:port-with-tag-and-own-descendant:order-dependent"
 KEY_MIXED = "cart:ports-with-mixed-tag-depths:order-dependent"
+KEY_NEST_D2 = "nest:inner-cartesian-depth>=2:schema-tags-collide:order-dependent"
 KEY_NESTC = "nest:cartesian-over-inner-combinator:raises"
 
 
@@ -30,6 +32,11 @@ KEY_NESTC = "nest:cartesian-over-inner-combinator:raises"
 # ------------------------------------------------------------------------------------------------
 class Hang(Exception):
     pass
+
+
+class InputIdsMismatch(Exception):
+    """a yielded schema entry whose `input_ids` is not exactly [id of the token it was made from] (or a retagged
+    token that kept a persistent id)"""
 
 
 @contextlib.contextmanager
@@ -70,7 +77,8 @@ def build(wf: Workflow, shape: dict):
             c.add_item(f"p{p}")
         return c
     if shape["kind"] == "cart":
-        c = CartesianProductCombinator(name="c", workflow=wf, depth=shape["depth"])
+        c = (CartesianProductCombinator(name="c", workflow=wf) if shape.get("nodepth") else
+             CartesianProductCombinator(name="c", workflow=wf, depth=shape["depth"]))
         for p in range(shape["P"]):
             c.add_item(f"p{p}")
         return c
@@ -99,7 +107,12 @@ async def run_real(wf: Workflow, shape: dict, events: list) -> tuple[list, str |
     out = []
     try:
         for p, tag, val in events:
-            async for schema in c.combine(f"p{p}", Token(value=val, tag=tag)):
+            tok = Token(value=val, tag=tag)
+            tok.persistent_id = val  # values are unique per stream: the value doubles as the token's id
+            async for schema in c.combine(f"p{p}", tok):
+                for k, s in schema.items():
+                    if list(s["input_ids"]) != [s["token"].value] or s["token"].persistent_id is not None:
+                        raise InputIdsMismatch(f"{k}: input_ids {s['input_ids']} for the token with id {s['token'].value}")
                 out.append([(int(k[1:]), s["token"].tag, s["token"].value) for k, s in schema.items()])
     except Hang:
         raise
@@ -108,10 +121,11 @@ async def run_real(wf: Workflow, shape: dict, events: list) -> tuple[list, str |
     return out, None
 
 
-async def run_step(sfc, shape: dict, events: list, name: str) -> list:
+async def run_step(sfc, shape: dict, events: list, name: str) -> dict:
     """the same stream through a REAL CombinatorStep with real ports: a feeder task puts the (persisted) tokens on the
     input ports in the given order, yielding after each one, while `step.run()` consumes them; the order in which the
-    step sees tokens of different ports is decided by the controlled loop. Returns the schemas read off the output ports."""
+    step sees tokens of different ports is decided by the controlled loop and RECORDED (`arrivals`). Returns the logs of
+    the output ports, the recorded arrival order, the final status, and the provenance rows of every output token."""
     wf = Workflow(context=sfc, config={}, name=name)
     comb = build(wf, shape)
     ports = nest_ports(shape) if shape["kind"] == "nest" else list(range(shape["P"]))
@@ -122,22 +136,63 @@ async def run_step(sfc, shape: dict, events: list, name: str) -> list:
         step.add_input_port(f"p{p}", ins[p])
         step.add_output_port(f"p{p}", outs[p])
     await wf.save(sfc.database)
+    arrivals: list = []
+    real_combine = comb.combine
+
+    def recording_combine(port_name, token):
+        arrivals.append((int(port_name[1:]), token.tag, token.value))
+        return real_combine(port_name, token)
+
+    comb.combine = recording_combine  # instance attribute: `self.combinator.combine(...)` in run() goes through it
+    ids: dict = {}
 
     async def feeder():
         for p, tag, val in events:
             t = Token(value=val, tag=tag)
             await t.save(sfc.database, port_id=ins[p].persistent_id)
+            ids[val] = t.persistent_id
             ins[p].put(t)
             await asyncio.sleep(0)
         for p in ports:
             ins[p].put(TerminationToken(Status.COMPLETED))
 
-    await asyncio.gather(asyncio.create_task(feeder()), asyncio.create_task(step.run()))
-    cols = {p: [t for t in outs[p].token_list if not isinstance(t, TerminationToken)] for p in ports}
-    n = {len(v) for v in cols.values()}
+    ft, st = asyncio.create_task(feeder()), asyncio.create_task(step.run())
+    try:
+        await asyncio.gather(ft, st)
+    finally:
+        # an exception of step.run() must not leave the feeder (or a database call of it) pending when the loop is torn down
+        for t in (ft, st):
+            if not t.done():
+                t.cancel()
+        await asyncio.gather(ft, st, return_exceptions=True)
+    logs, tails, prov = {}, {}, []
+    for p in ports:
+        tl = outs[p].token_list
+        logs[p] = [(t.tag, t.value) for t in tl if not isinstance(t, TerminationToken)]
+        tails[p] = [("T", t.value.name) if isinstance(t, TerminationToken) else ("D",) for t in tl]
+    n = {len(v) for v in logs.values()}
+    if len(n) == 1:
+        for i in range(n.pop()):
+            want = sorted(ids[outs[p].token_list[i].value] for p in ports)
+            for p in ports:
+                t = outs[p].token_list[i]
+                rows = await sfc.database.get_dependees(t.persistent_id) if t.persistent_id is not None else None
+                got = sorted(r["dependee"] for r in rows) if rows is not None else None
+                if got != want:
+                    prov.append((p, i, t.tag, got, want))
+    return {"ports": ports, "logs": logs, "tails": tails, "arrivals": arrivals, "status": step.status.name, "prov": prov}
+
+
+def step_render(res: dict) -> str:
+    return "|".join(f"{p}=" + (",".join(f"{t}:{v}" for t, v in res["logs"][p]) or "-") for p in res["ports"]) + "|" + res["status"]
+
+
+def step_schemas(res: dict) -> list:
+    logs, ports = res["logs"], res["ports"]
+    n = {len(v) for v in logs.values()}
     if len(n) != 1:
-        return [[(p, t.tag, t.value)] for p in ports for t in cols[p]]  # ragged output: reported as it is
-    return [[(p, cols[p][i].tag, cols[p][i].value) for p in ports] for i in range(n.pop())]
+        return [[(p, t, v)] for p in ports for t, v in logs[p]]
+    return [[(p,) + logs[p][i] for p in ports] for i in range(n.pop())]
 
 
 def canon(out: list) -> list:
@@ -220,6 +275,26 @@ def spec_cart(depth: int, ports: list[int], S: list) -> list:
             suffix = [comps(t)[-1] for _, t, _ in combo]
             out.append(tuple((p, ".".join(map(str, list(comps(t)[:-1]) + suffix)), v) for p, t, v in combo))
     return sorted(out)
+
+
+def nest_wf_but_depth(shape: dict, S: list) -> bool:
+    """a nested stream that is well formed at every level except that an inner cartesian product has depth >= 2"""
+    deep = False
+    for it in shape["items"]:
+        if isinstance(it, int):
+            if not wf_dot([it], [e for e in S if e[0] == it]):
+                return False
+        else:
+            ports = list(it[-1])
+            sub = [e for e in S if e[0] in ports]
+            if it[0] == "d":
+                if not wf_dot(ports, sub):
+                    return False
+            else:
+                if not wf_cart(ports, sub):
+                    return False
+                deep = deep or it[1] >= 2
+    return deep
 
 
 def nest_ports(shape: dict) -> list[int]:
@@ -337,7 +412,13 @@ def orders(rng, n: int, limit: int) -> list[tuple[int, ...]]:
     return out
 
 
+import inspect  # noqa: E402
+
+_CART_DEFAULT_DEPTH = inspect.signature(CartesianProductCombinator.__init__).parameters["depth"].default
+
 CORPUS = [
+    # built WITHOUT a depth argument, as the CWL translator does: the model runs with the default read from the signature
+    ({"kind": "cart", "depth": _CART_DEFAULT_DEPTH, "P": 2, "nodepth": True}, [(0, "0.1.2", 1), (0, "0.1.3", 2), (1, "0.1.5", 3), (1, "0.4.6", 4)]),
     # (shape, stream) — boundary cases that run first
     ({"kind": "dot", "P": 3}, [(0, "0", 100), (1, "0.1", 200), (2, "0.1.0", 300)]),          # the 3-port broadcast example
     ({"kind": "dot", "P": 2}, [(0, "0", 100), (1, "0", 7), (0, "0.0", 5)]),                   # the Lean witness (known finding)
@@ -359,6 +440,11 @@ CORPUS = [
     ({"kind": "cart", "depth": 1, "P": 3}, [(0, "0.0", 1), (1, "0.1", 2)]),
     ({"kind": "nest", "items": [["c", 1, [0, 1]], 2]}, [(0, "0.0", 1), (0, "0.1", 2), (1, "0.0", 3), (1, "0.1", 4), (2, "0", 5)]),
     ({"kind": "nest", "items": [["d", [0, 1]], 2]}, [(0, "0.0", 1), (0, "0.1", 2), (1, "0.0", 3), (1, "0.1", 4), (2, "0", 5)]),
+    # inner cartesian product of depth 2: two inner schemas get the same get_tag (known finding, Lean witness)
+    ({"kind": "nest", "items": [["c", 2, [0, 1]], 2]}, [(0, "0.0.2", 1), (1, "0.0.1", 2), (1, "0.1.1", 3), (2, "0", 9)]),
+    # two inner combinators in one outer dot product
+    ({"kind": "nest", "items": [["c", 1, [0, 1]], ["d", [2, 3]], 4]},
+     [(0, "0.0", 1), (0, "0.1", 2), (1, "0.0", 3), (2, "0", 4), (3, "0", 5), (4, "0", 6)]),
 ]
 
 
@@ -383,7 +469,11 @@ class C02(Property):
             "cartesian) and non-well-formed streams (tag + own descendant on a port, duplicate tags, mixed depths); plus, exhaustively, every 2-port stream with <= 2 tokens per port over the tags 0, 0.0, 0.1, 0.0.0 (121 streams). Every stream is fed "
             "to the REAL combinator in all permutations when <= 6 tokens (else a sample): the emitted multiset must equal the spec and "
             "be the same for every order (monitor); the emission *sequence* of a subset of the orders is compared with the Lean "
-            "loop-faithful model (driver). Non-trivial = distinct (shape, stream) with at least one emission.")
+            "loop-faithful model (driver). Nested shapes include two inner combinators in one outer dot product and an inner cartesian "
+            "product of depth 2 (order-dependence monitor only). Step level: the stream through a real CombinatorStep (ports, persistence, "
+            "controlled interleaving) with the arrival order seen by combine() recorded; output-port logs + final status compared with the "
+            "Lean step model on that order; termination tokens, delivery order, provenance rows and input_ids monitored. "
+            "Non-trivial = distinct (shape, stream) with at least one emission.")
     trusted_base = [
         "translators harness/sfv/translate/tagguards.py (get_tag comparison) and combguards.py (emission guard, pop side, _is_parent_tag, "
         "cartesian key/suffix slices -> SFV/Gen/CombGuards.lean)",
@@ -484,6 +574,10 @@ class C02(Property):
                     i = ords.index(dep)
                     ctx.fail(KEY_DESC, f"dot product over {shape['P']} ports, stream {S} (a port carries a tag and a descendant of it): arrival "
                                        f"order {list(ords[0])} emits {cans[0]}, order {list(dep)} emits {cans[i]}", replay(dep))
+                elif kind == "nest" and nest_wf_but_depth(shape, S):
+                    i = ords.index(dep)
+                    ctx.fail(KEY_NEST_D2, f"{shape}, stream {S} (inner cartesian product of depth >= 2): arrival order {list(ords[0])} emits "
+                                          f"{cans[0]}, order {list(dep)} emits {cans[i]}", replay(dep))
                 elif kind == "cart":
                     i = ords.index(dep)
                     ctx.fail(KEY_MIXED, f"cartesian product depth {shape['depth']} over {shape['P']} ports, stream {S} (tokens of different depths): "
@@ -579,7 +673,22 @@ class C02(Property):
                 inner_ports = [0, 1]
                 others = [2] if rng.random() < 0.7 else [2, 3]
                 mode = rng.random()
-                if mode < 0.12:
+                two_inner = None
+                if mode >= 0.2 and rng.random() < 0.2:
+                    # two inner combinators in one outer dot product: cart1[p0,p1] and dot[p2,p3] (+ a plain port)
+                    S = gen_cart_stream(rng, 0, 1, True, ports=[0, 1])
+                    heads = sorted({".".join(t.split(".")[:k]) for _, t, _ in S for k in range(1, t.count(".") + 1)} | {"0"})
+                    for q in (2, 3, 4):
+                        mine = []
+                        for _ in range(rng.randint(1, 2)):
+                            t = rng.choice(heads)
+                            if not any(is_prefix(t, u) or is_prefix(u, t) for u in mine):
+                                mine.append(t)
+                        S += [(q, t, 100 * (q + 1) + 50 + i) for i, t in enumerate(mine)]
+                    two_inner = rng.choice([[["c", 1, [0, 1]], ["d", [2, 3]], 4], [["d", [2, 3]], 4, ["c", 1, [0, 1]]],
+                                            [4, ["c", 1, [0, 1]], ["d", [2, 3]]]])
+                    inner, others = None, []
+                elif mode < 0.12:
                     # correspondence only: non-well-formed streams, inner cartesian depth 2, three inner ports
                     inner_ports = [0, 1] if rng.random() < 0.6 else [0, 1, 4]
                     inner = rng.choice([["d", inner_ports], ["c", 1, inner_ports], ["c", 2, inner_ports]])
@@ -602,8 +711,10 @@ class C02(Property):
                             if not any(is_prefix(t, u) or is_prefix(u, t) for u in mine):
                                 mine.append(t)
                         S += [(q, t, 100 * (q + 1) + 50 + i) for i, t in enumerate(mine)]
-                items = [inner] + others
-                if rng.random() < 0.3:
+                items = ([inner] + others) if two_inner is None else two_inner
+                if two_inner is not None:
+                    pass
+                elif rng.random() < 0.3:
                     items = others + [inner]
                 elif rng.random() < 0.15 and len(others) == 2:
                     items = [others[0], inner, others[1]]
@@ -625,6 +736,7 @@ class C02(Property):
         rng = ctx.rng
         n = 40 if ctx.tier == "quick" and ctx.mode == "check" else 300
         sfc = sfctx.make_context(ctx.scratch)
+        step_batch: list = []
         try:
             for i in range(n):
                 if ctx.out_of_time():
@@ -656,29 +768,61 @@ class C02(Property):
                 evs = [S[j] for j in order]
                 seed = rng.randrange(1 << 30)
                 try:
-                    with alarm(SLOW_S):
+                    with alarm(STEP_S + 60):
                         out = sfloop.run_controlled(lambda: run_step(sfc, shape, evs, f"w{ctx.seed}-{ctx.mode}-{i}"), seed,
-                                                    timeout=SLOW_S - 60)
+                                                    timeout=STEP_S)
                 except (Hang, TimeoutError):
                     # a step case normally takes ~50 ms; on a loaded machine an overrun is inconclusive, not a violation
-                    ctx.notes.append(f"step-level case {i} exceeded {SLOW_S - 60} s: {shape} {evs} (loop seed {seed})")
+                    ctx.notes.append(f"step-level case {i} exceeded {STEP_S} s: {shape} {evs} (loop seed {seed})")
+                    known = {KEY_DESC, KEY_MIXED, KEY_NESTC, KEY_NEST_D2}
+                    if ctx.broken or any(f.key not in known for f in ctx.failures):
+                        # the earlier stages already have a failing input / a broken tie: report those, skip the rest of this stage
+                        break
                     ctx.extra["incomplete"] = True
-                    raise Inconclusive(f"CombinatorStep.run case exceeded {SLOW_S - 60} s on {shape} {evs} (loop seed {seed})")
+                    raise Inconclusive(f"CombinatorStep.run case exceeded {STEP_S} s on {shape} {evs} (loop seed {seed})")
                 except Exception as e:  # noqa: BLE001
                     ctx.fail(f"{shape['kind']}:step:exception", f"CombinatorStep.run raised {type(e).__name__}: {e} on {shape} {evs}",
                              {"shape": shape, "stream": S, "orders": [order], "step_seed": seed})
-                    continue
-                ctx.case({"shape": shape, "stream": evs, "via": "CombinatorStep.run", "loop_seed": seed, "emitted": len(out)},
+                    break  # a crashed step may leave the shared database connection unusable: the failing input is recorded, stop here
+                res = out
+                out = step_schemas(res)
+                rp = {"shape": shape, "stream": S, "orders": [order], "step_seed": seed}
+                ctx.case({"shape": shape, "stream": evs, "via": "CombinatorStep.run", "loop_seed": seed, "emitted": len(out),
+                          "arrival_order_seen_by_the_step": res["arrivals"], "status": res["status"]},
                          ("step", line_of(shape, evs)) if out else None, f"step:{shape['kind']}")
+                if res["arrivals"] != evs:
+                    ctx.count("step:arrival-order-differs-from-feed-order")
                 if canon(out) != spec:
                     ctx.fail(f"{shape['kind']}:step:wf:not-the-specified-combinations",
                              f"CombinatorStep.run over {shape}, well-formed stream fed in order {evs} (loop seed {seed}): output ports carry "
-                             f"{canon(out)[:6]}, specified {spec[:6]}", {"shape": shape, "stream": S, "orders": [order], "step_seed": seed})
+                             f"{canon(out)[:6]}, specified {spec[:6]}", rp)
+                # every input token reached combine() exactly once, per port in feed order
+                if sorted(res["arrivals"]) != sorted(evs) or any(
+                        [a for a in res["arrivals"] if a[0] == p] != [e for e in evs if e[0] == p] for p in res["ports"]):
+                    ctx.fail("step:tokens-not-delivered-once-in-port-order", f"{shape} fed {evs}, combine() saw {res['arrivals']}", rp)
+                # every output port: the data tokens, then exactly one termination token carrying the step's final status
+                want_status = "COMPLETED" if out else "SKIPPED"
+                bad_tail = [p for p in res["ports"] if res["tails"][p] != [("D",)] * len(res["logs"][p]) + [("T", want_status)]]
+                if res["status"] != want_status or bad_tail:
+                    ctx.fail("step:termination-or-status", f"{shape} fed {evs}: step status {res['status']} (expected {want_status}), output "
+                                                           f"port tails {({p: res['tails'][p] for p in bad_tail})}", rp)
+                # provenance: every output token depends on exactly the input tokens of its combination
+                if res["prov"]:
+                    ctx.fail("step:provenance-ids", f"{shape} fed {evs}: output token (port, index, tag, recorded dependees, expected) "
+                                                   f"{res['prov'][:3]}", rp)
+                # correspondence at the step level: the model on the arrival order the step really saw
+                step_batch.append(("step " + line_of(shape, res["arrivals"]), step_render(res), shape, S, order, seed))
         finally:
             try:
                 sfloop.run_controlled(lambda: sfctx.close_context(sfc), 0, timeout=300)
             except Exception:  # noqa: BLE001
                 pass
+        if step_batch:
+            got = ctx.lean(DRIVER, [b[0] for b in step_batch])
+            for g, (line, exp, shape, S, order, seed) in zip(got, step_batch):
+                if g != exp:
+                    ctx.disagree("model vs CombinatorStep.run", f"`{line}`: output ports + status of the real step {exp!r}, Lean model {g!r}",
+                                 {"shape": shape, "stream": S, "orders": [order], "step_seed": seed})
 
     def replay(self, ctx: Ctx, data) -> None:
         r = data.get("replay") or data.get("case") or {}
@@ -734,7 +878,9 @@ class C02(Property):
         cans = [canon(out) for out, _ in results]
         if kind == "dot" and any(e is not None for _, e in results):
             ctx.fail(f"dot:exception:{[e for _, e in results if e][0]}", f"combine() raised {[e for _, e in results if e][0]}", r)
-        if not wfok and any(c != cans[0] for c in cans) and not has_dup(ports, S):
+        if not wfok and kind == "nest" and any(c != cans[0] for c in cans) and nest_wf_but_depth(shape, S):
+            ctx.fail(KEY_NEST_D2, f"orders emit different multisets: {cans}", r)
+        elif not wfok and kind != "nest" and any(c != cans[0] for c in cans) and not has_dup(ports, S):
             ctx.fail(KEY_DESC if kind == "dot" else KEY_MIXED, f"orders emit different multisets: {cans}", r)
 
 
@@ -747,8 +893,16 @@ class C02(Property):
         try:
             with alarm(SLOW_S):
                 out = sfloop.run_controlled(lambda: run_step(sfc, shape, evs, "replay"), r["step_seed"], timeout=SLOW_S - 60)
-            print(f"CombinatorStep.run over {shape}\nfed in order {evs} (loop seed {r['step_seed']})\n"
-                  f"   output ports: {canon(out)}\n   specified   : {spec}")
+            res = out
+            out = step_schemas(res)
+            model = ctx.lean(DRIVER, ["step " + line_of(shape, res["arrivals"])])[0]
+            print(f"CombinatorStep.run over {shape}\nfed in order {evs} (loop seed {r['step_seed']}); combine() saw {res['arrivals']}\n"
+                  f"   output ports: {canon(out)}\n   specified   : {spec}\n   real step   : {step_render(res)}\n   model       : {model}\n"
+                  f"   provenance mismatches: {res['prov']}")
+            if model != step_render(res):
+                ctx.disagree("model vs CombinatorStep.run", f"{step_render(res)!r} vs {model!r}", r)
+            if res["prov"]:
+                ctx.fail("step:provenance-ids", str(res["prov"][:3]), r)
             if canon(out) != spec:
                 ctx.fail(f"{shape['kind']}:step:wf:not-the-specified-combinations", "still differs", r)
         except (Hang, TimeoutError):
